@@ -88,7 +88,7 @@ def rand_script(rng, n):
             if not free:
                 continue
             s = rng.choice(free)
-            p = rng.choice([4001, 4002, 4003])
+            p = rng.choice([4001, 4002, 4003, 4001, 4002, 4003, 5001, 5002, 5003])     # (5xxx: the same number from another address)
             kind = rng.choice(["normal", "normal", "normal", "exit", "resolve"])
             if att_ == "A":
                 ans, mode = rng.choice(["none", "dna", "unknown", "noncirc", "c1", "c2", "c1", "c2"]), rng.choice(["imm", "def", "coro"])
@@ -175,6 +175,10 @@ def directed():
                     dict(a="NewStream", s=1, kind="normal", p=4001, ans="none", mode="imm"), dict(a="StreamFailed", s=1),
                     dict(a="LateClosed", s=1), dict(a="NewStream", s=2, kind="normal", p=4002, ans="none", mode="imm"),
                     dict(a="StreamFailed", s=2), dict(a="LateClosed", s=2)])
+    # an unrelated stream from another source address with the same port number arrives before the connection's own
+    out.append(B + [dict(a="ViaConnect", k="k1", c=1, late=False), dict(a="ViaAddr", k="k1", p=4001),
+                    dict(a="NewStream", s=1, kind="normal", p=5001, ans="none", mode="imm"),
+                    dict(a="NewStream", s=2, kind="normal", p=4001, ans="none", mode="imm")])
     # Tor refuses the decision command (the circuit went away inside Tor first): reported, nothing more is sent
     for mode in ("imm", "coro"):
         out.append(B + [dict(a="SetAttacher", who="A", late=False),
